@@ -20,14 +20,21 @@ EXPLANATION = ("A theorem cannot range over the whole CLI; what is proved (Props
 ASSUMPTIONS = ["the CLI fuzz is a search, not a proof", "termination of the regex crate on user patterns and memory exhaustion are out of scope"]
 
 OK_EXITS = {0, 1, 2, 3, 130}
-TERMS = ["old_name", "oldName", "OLD_NAME", "a", "_", "-", ".", " ", "__", "a.b", "x-y_z", "é", "İstanbul", "ǅ", "ß", "ﬁ", "日本語", "a b",
+TERMS = ["old_name", "oldName", "OLD_NAME", "OldName", "A\u00c3x", "a", "_", "-", ".", " ", "__", "a.b", "x-y_z", "é", "İstanbul", "ǅ", "ß", "ﬁ", "日本語", "a b",
          "(", "[a-z]+", "$1", "\\", "*", "foo(bar", "new_name", "", "K", "ı", "ΣΑΣ", "old_name_old_name", "\t", "𝒳", "‍"]
 NAMES = ["a.txt", "old_name.rs", "é☃.md", "sp ace", "-dash", "--flag", ".hidden", "x\ty", "q\"uote", "back\\slash", "new\nline", "old_name",
          "İ_old_name", "dir.d", "$HOME", "*", "a;b", "'q'", "\x7f", "ǅx", "long" * 40]
 
 
 def rand_bytes(r, n):
-    kinds = r.randrange(6)
+    kinds = r.randrange(7)
+    if kinds == 6:
+        # every hump / separator rendering of the usual term glued to characters whose case mapping changes the byte length
+        # (KELVIN SIGN, dotted capital I, sharp s, ligature) and followed by separators: offsets computed on a case-folded copy
+        # do not fit the original
+        odd = ["\u212a", "\u0130", "\u1e9e", "\ufb01", "\u01c5", "\u00df"]
+        forms = ["oldName", "OldName", "old_name", "OLD_NAME", "old-name", "Old-Name", "old.name"]
+        return " ".join(r.choice(["a", "", "x_"]) + r.choice(odd) + f + r.choice(["-x", "_y", ".z", "", "-" + r.choice(odd)]) for f in forms for _ in range(2)).encode("utf-8") + b"\n"
     if kinds == 0:
         return bytes(r.randrange(256) for _ in range(n))
     if kinds == 1:
@@ -108,7 +115,8 @@ def rand_cmd(r):
 
 GRAMMAR_SKIP_CMDS = {"init", "test-lock", "help"}          # init writes git configuration; test-lock sleeps
 GRAMMAR_SKIP_OPTS = {"commit", "help", "version"}          # --commit would run git in whatever repository encloses the sandbox
-VALUE_POOL = ["old_name", "x", "", "*", "[", "(", "^a", "src/**", "a.txt", "API,ID", "3", "-1", "99999999999999999999", "é", "a,b"]
+VALUE_POOL = ["old_name", "x", "", "*", "[", "(", "^a", "src/**", "a.txt", "API,ID", "3", "-1", "99999999999999999999", "é", "a,b",
+              "A\u00c3", "\u00c9A", "\u0130D,API", "\u212a"]
 
 
 def grammar_cmd(r, grammar):
